@@ -28,7 +28,13 @@ Section Sampling.
   Definition half_pi : num := npi / n2.
 
   (* the lattice of one face *)
+  (* parry Triangle::normal(): Unit::try_new(scaled normal, f64::EPSILON) - none when the squared norm is at most epsilon squared *)
+  Definition f64_eps : num := n1 / nofZ 4503599627370496.
+  Definition has_normal (a b c : V3) : bool :=
+    let n := cross3 (sub3 b a) (sub3 c a) in f64_eps * f64_eps <? nsq3 n.
+
   Definition dense_face (fuel : nat) (a b c : V3) (s : num) : list V3 :=
+    if negb (has_normal a b c) then [] else      (* a face without a normal has no surface to sample *)
     let center := mean_tri a b c in
     if (dist3 a center <? s) && (dist3 b center <? s) && (dist3 c center <? s) then [center]
     else
